@@ -6,9 +6,15 @@
 (* incarnation state) and chooses a value for each; `hist` is the sequence of chosen values.  When all slots are *)
 (* filled, CatOf(hist) is a complete source catalog = one plan for the replay driver.                            *)
 (*                                                                                                               *)
+(* The last slot is the CLOCK of the host that takes the snapshot, relative to the source's current time (the TSO  *)
+(* key): the source's time may be behind, equal to, or ahead of the local clock (allocation window, clock skew,   *)
+(* far in the future).  Both times are part of the catalog record (cat.now, cat.local).                           *)
+(*                                                                                                               *)
 (* Design part  : Design(cat, mode, fl) - a transcription of GetAllDroppedObj (iteration order, the dbName       *)
 (*                variable shared by both loops, the target's name-only lookup of a tombstoned database, string  *)
-(*                keys).  Deviation switches: FixStaleDb, LiveDbGuard, SafeKeys (TRUE = repaired).               *)
+(*                keys; the time of the TSO key is taken as it is).  Deviation switches: FixStaleDb, LiveDbGuard, *)
+(*                SafeKeys (TRUE = repaired); negative control ClampLocal (TRUE = the source's time is clamped   *)
+(*                to the local clock - a defect class the code does not have, MUST violate the contract).        *)
 (* Contract part: Contract(cat, mode, lk, extra) - Snapshot transcribed from the property statement, phrased     *)
 (*                over name lookups (what the writer asks the table), not over key strings.                      *)
 EXTENDS Integers, Sequences, FiniteSets, TLC, Json, SequencesExt, FiniteSetsExt
@@ -18,7 +24,9 @@ CONSTANTS DBs, CNames, PNames,  \* sequences of model names: databases, collecti
           DbStates,             \* subset of {"live", "goneDown", "goneBoth"}
           CStates, PStates,     \* subsets of {"creating","created","dropping","dropped","tombstone"}
           Concrete,             \* record model name -> concrete string used in the catalog (adversarial names)
-          Now,                  \* the source's current time (model ticks; every creation time is smaller)
+          Now,                  \* the source's current time = the TSO key (model ticks = ms; every creation time is smaller)
+          Skews,                \* subset of SkewNames: where the source's time lies relative to the clock of the cdc host
+          ClampLocal,           \* negative control: TRUE = "now" is min(TSO key, local clock) (as built: FALSE, the key is trusted)
           FixStaleDb,           \* TRUE = with a nil target the partition loop uses the partition's own database (repaired)
           LiveDbGuard,          \* TRUE = a name-only answer of the target that names a database alive upstream is discarded (repaired)
           SafeKeys              \* TRUE = name keys cannot collide (repaired); FALSE = "<db>_<coll>_<part>" as built
@@ -36,6 +44,13 @@ NamesPlain == [d1 |-> "dba", d2 |-> "dbb", c1 |-> "ca", c2 |-> "cb", p1 |-> "pa"
 \* adversarial: "d" + "x_y" and "d_x" + "y" give the same "<db>_<coll>" string; likewise "x" + "y_p" / "x_y" + "p"
 NamesClash == [d1 |-> "d", d2 |-> "d_x", c1 |-> "x_y", c2 |-> "y", p1 |-> "p", p2 |-> "y_p"]
 
+\* source time minus local clock of the host that takes the snapshot, in ticks (ms): 10 minutes behind, equal,
+\* ahead by an allocation window (3 s), ahead by 10 minutes, ahead by about 23 days (the largest round number TLC can hold)
+SkewNames == {"behind", "equal", "window", "ahead", "far"}
+SkewOf(s) == CASE s = "behind" -> 0 - 600000 [] s = "equal" -> 0 [] s = "window" -> 3000
+               [] s = "ahead" -> 600000 [] s = "far" -> 2000000000
+ASSUME Skews \subseteq SkewNames /\ Skews # {}
+
 Liveish == {"creating", "created"}
 Dropish == {"dropping", "dropped"}
 Gone    == {"dropping", "dropped", "tombstone"}
@@ -48,7 +63,8 @@ CollSlots(di, ci) ==
     FlattenSeq([i \in 1..MaxInc |-> <<[k |-> "coll", di |-> di, ci |-> ci, i |-> i, pi |-> 0, j |-> 0]>> \o PartSlots(di, ci, i)])
 DbSlots(di) ==
     <<[k |-> "db", di |-> di, ci |-> 0, i |-> 0, pi |-> 0, j |-> 0]>> \o FlattenSeq([ci \in 1..Len(CNames) |-> CollSlots(di, ci)])
-SlotSeq == FlattenSeq([di \in 1..Len(DBs) |-> DbSlots(di)])
+ClkSlot == [k |-> "clk", di |-> 0, ci |-> 0, i |-> 0, pi |-> 0, j |-> 0]
+SlotSeq == FlattenSeq([di \in 1..Len(DBs) |-> DbSlots(di)]) \o <<ClkSlot>>       \* the clock is chosen last
 NSlots == Len(SlotSeq)
 
 SlotIdx(s) == CHOOSE n \in 1..NSlots : SlotSeq[n] = s
@@ -64,6 +80,7 @@ PartSlot(di, ci, i, pi, j) == [k |-> "part", di |-> di, ci |-> ci, i |-> i, pi |
 Dom(h) ==
     LET s == SlotSeq[Len(h) + 1] IN
     CASE s.k = "db" -> DbStates
+      [] s.k = "clk" -> Skews
       [] s.k = "coll" ->
            LET prev == IF s.i = 1 THEN "first" ELSE ValAt(h, CollSlot(s.di, s.ci, s.i - 1))
                dbst == ValAt(h, DbSlot(s.di))
@@ -93,7 +110,10 @@ CatOf(h) ==
         dbs == SelectSeq(sv, LAMBDA x : x.s.k = "db")
         cs  == SelectSeq(sv, LAMBDA x : x.s.k = "coll" /\ x.v # "none")
         ps  == SelectSeq(sv, LAMBDA x : x.s.k = "part" /\ x.v # "none")
-    IN [now |-> Now,
+        clk == SelectSeq(sv, LAMBDA x : x.s.k = "clk")
+        skew == IF Len(clk) = 0 THEN "equal" ELSE clk[1].v
+    IN [now |-> Now,                               \* the TSO key
+        skew |-> skew, local |-> Now - SkewOf(skew),   \* what the clock of the cdc host shows when the snapshot is taken
         names |-> Concrete,
         udbs |-> DBs, ucolls |-> CNames, uparts |-> PNames,
         dbs |-> [n \in 1..Len(dbs) |-> [name |-> DBs[dbs[n].s.di], id |-> DbId(dbs[n].s.di),
@@ -126,10 +146,15 @@ PKey(fl, dn, c, p) == KDb(dn) \o Sep(fl) \o c \o Sep(fl) \o p
 Tome == "_tome"
 
 (* ------------------------------------------------------------------ Design: GetAllDroppedObj as built *)
-\* fl = [stale |-> BOOLEAN (as built: TRUE), guard |-> BOOLEAN (as built: FALSE), safekeys |-> BOOLEAN (as built: FALSE)]
-AsBuiltFlags == [stale |-> TRUE, guard |-> FALSE, safekeys |-> FALSE]
-RepairedFlags == [stale |-> FALSE, guard |-> TRUE, safekeys |-> TRUE]
-CfgFlags == [stale |-> ~FixStaleDb, guard |-> LiveDbGuard, safekeys |-> SafeKeys]
+\* fl = [stale |-> BOOLEAN (as built: TRUE), guard |-> BOOLEAN (as built: FALSE), safekeys |-> BOOLEAN (as built: FALSE),
+\*       clamp |-> BOOLEAN (as built: FALSE; TRUE = negative control)]
+AsBuiltFlags == [stale |-> TRUE, guard |-> FALSE, safekeys |-> FALSE, clamp |-> FALSE]
+RepairedFlags == [stale |-> FALSE, guard |-> TRUE, safekeys |-> TRUE, clamp |-> FALSE]
+CfgFlags == [stale |-> ~FixStaleDb, guard |-> LiveDbGuard, safekeys |-> SafeKeys, clamp |-> ClampLocal]
+
+\* "current time": the TSO key of the source, whatever the local clock shows.  Control: never later than the local clock.
+\* (cat.local is consulted by the control only: catalogs without the field are fine for the design as built.)
+SrcNow(cat, fl) == IF fl.clamp /\ cat.local < cat.now THEN cat.local ELSE cat.now
 
 \* dbID2Name after getDatabases: the name, or "_tome" for a tombstoned database
 SrcDbName(cat, dbid) == LET r == DbById(cat, dbid) IN IF r.st = "live" THEN cat.names[r.name] ELSE Tome
@@ -158,9 +183,9 @@ CollLoop(cat, mode, fl) ==
                THEN [acc EXCEPT !.dbName = dn]                                  \* continue
                ELSE LET key == CKey(fl, dn, cat.names[c.name])
                         a1 == [acc EXCEPT !.dbName = dn,
-                                          !.db = IF mode = "milvus" /\ origin # dn THEN Put(@, DKey(fl, dn), cat.now - 1) ELSE @]
+                                          !.db = IF mode = "milvus" /\ origin # dn THEN Put(@, DKey(fl, dn), SrcNow(cat, fl) - 1) ELSE @]
                     IN IF c.st \in Liveish THEN [a1 EXCEPT !.created = Put(@, key, c.ct)]
-                       ELSE [a1 EXCEPT !.coll = Put(@, key, cat.now - 1)]
+                       ELSE [a1 EXCEPT !.coll = Put(@, key, SrcNow(cat, fl) - 1)]
     IN FoldLeft(step, [dbName |-> "", db |-> EmptyMap, coll |-> EmptyMap, created |-> EmptyMap], ById(VisColls(cat)))
 
 PartLoop(cat, mode, fl, dbName0) ==
@@ -174,7 +199,7 @@ PartLoop(cat, mode, fl, dbName0) ==
                ELSE LET key == PKey(fl, dn, cat.names[c.name], cat.names[p.name])
                         a1 == [acc EXCEPT !.dbName = dn]
                     IN IF p.st \in Liveish THEN [a1 EXCEPT !.created = Put(@, key, p.ct)]
-                       ELSE [a1 EXCEPT !.part = Put(@, key, cat.now - 1)]
+                       ELSE [a1 EXCEPT !.part = Put(@, key, SrcNow(cat, fl) - 1)]
         order == SetToSortSeq(VisParts(cat), LAMBDA a, b : a.cid < b.cid \/ (a.cid = b.cid /\ a.id < b.id))
     IN FoldLeft(step, [dbName |-> dbName0, part |-> EmptyMap, created |-> EmptyMap], order)
 
@@ -208,6 +233,8 @@ ExtraOf(cat, fl, T) ==
                                    \cup ((DOMAIN T.part \ asked("part")) \ TomeKeys(cat, fl))
 
 (* ------------------------------------------------------------------ Contract: Snapshot from the statement *)
+\* "The source's current time" is cat.now, the TSO key of the catalog - never cat.local: the clock of the host that
+\* takes the snapshot is not mentioned by the statement, and the horizon must not depend on it.
 \* The name of a database is known if its record is readable.  A tombstone carries no name: the objects of a
 \* tombstoned database can be attributed to it only through the downstream catalog (Milvus target), and only if the
 \* collection name identifies it: no other database (downstream copy or tombstoned as well) has a readable collection
